@@ -120,6 +120,9 @@ pub struct MonState {
     cancel_told: BTreeSet<(u8, TaskId)>,
     /// hash of (core, hq) before the current client request (submit atomicity)
     pre_request: BTreeMap<u8, u64>,
+    /// hash of (core, hq) at the end of the step that handled the client's pending request (with
+    /// a journal the response comes a flush later, and other things happen in between)
+    post_request: BTreeMap<u8, u64>,
     known_tasks_per_job: BTreeMap<u32, BTreeSet<u32>>,
     /// conditions that currently hold (so that a state invariant fires once, at the step that
     /// breaks it, and its site can name that step)
@@ -127,6 +130,12 @@ pub struct MonState {
     /// (task, dependency) pairs where the dependency had already ended unsuccessfully when the
     /// dependent was submitted (later submit into an open job)
     dep_bad_at_submit: BTreeSet<(TaskId, TaskId)>,
+    /// (client, "end <task>" | "start <task> i<instance>"): what one client's event stream has
+    /// already been told
+    client_told: BTreeSet<(u8, String)>,
+    /// client -> task ids its job must show in the response of its pending submit (computed when
+    /// the server handled the submit, which with a journal is a flush earlier than the response)
+    submit_expected: BTreeMap<u8, BTreeSet<u32>>,
 }
 
 pub struct Monitor {
@@ -385,12 +394,18 @@ impl Monitor {
                 _ => {}
             }
         }
+        // the submit request of this step (the server handles it, and emits its Submit event, in
+        // the same step; the response may come a journal flush later)
+        let mut step_submit: Option<(u8, crate::sim::scenario::SubmitSpec)> = None;
+        let mut step_requests: Vec<u8> = Vec::new();
         for o in obs {
             match o {
                 Obs::ClientRequest { client, req, .. } => {
                     self.s
                         .pre_request
                         .insert(*client, pre.map(|p| crate::common::hash64(&(&p.core, &p.hq))).unwrap_or(0));
+                    self.s.post_request.remove(client);
+                    step_requests.push(*client);
                     match req {
                         Req::Cancel(j) => {
                             let n: BTreeSet<TaskId> = self
@@ -412,6 +427,7 @@ impl Monitor {
                                 self.s.jobs_cancel_requested.insert(j);
                             }
                         }
+                        Req::Submit(spec) => step_submit = Some((*client, spec.clone())),
                         _ => {}
                     }
                 }
@@ -419,6 +435,12 @@ impl Monitor {
                     self.on_response(sys, *client, req, resp, pre, post);
                 }
                 Obs::Live(p) => {
+                    if let EventPayload::Submit { job_id, .. } = p
+                        && let Some((c, spec)) = step_submit.take()
+                    {
+                        let expected = self.register_submit(job_id.as_num(), &spec);
+                        self.s.submit_expected.insert(c, expected);
+                    }
                     self.on_event(sys, p, &mut step_failed, &mut step_canceled, &mut step_aborted, &mut step_started, pre);
                     if let Some(tag) = task_event_tag(p) {
                         live_task_events.push(tag);
@@ -506,12 +528,16 @@ impl Monitor {
                         }
                     }
                     "retract" => {
-                        if let Some(Some(ws)) = post.workers.get(*slot as usize) {
+                        // what the worker itself confirmed (the ids of the RetractResponse it just
+                        // queued), not what its backlog looks like
+                        if let Some(confirmed) = sys.last_retract_confirmation(*slot) {
+                            for t in confirmed {
+                                self.s.given_back.insert((*slot, t));
+                            }
+                        } else if let Some(Some(ws)) = post.workers.get(*slot as usize) {
                             for t in tasks {
                                 let in_backlog = ws.prefilled.iter().any(|(_, ts)| ts.iter().any(|(x, _)| x == t));
                                 let running = ws.running.iter().any(|r| r.id == *t);
-                                // what the worker answered is in its outgoing queue; a task that is
-                                // neither queued nor running there was given back (or never known)
                                 if !in_backlog && !running {
                                     let was_there = pre
                                         .and_then(|p| p.workers.get(*slot as usize))
@@ -559,9 +585,46 @@ impl Monitor {
                     self.s.cancel_told.retain(|(s, _)| s != slot);
                 }
                 Obs::Join { .. } => {}
-                Obs::ClientEvent { .. } => {}
+                Obs::ClientEvent { client, payload } => {
+                    // C01 "announced to clients exactly once": per connection, the stream never
+                    // carries a second outcome (or the same start twice) for a task
+                    let mut told: Vec<(String, TaskId)> = Vec::new();
+                    match payload {
+                        EventPayload::TaskFinished { task_id } | EventPayload::TaskFailed { task_id, .. } => {
+                            told.push((format!("end {task_id}"), *task_id))
+                        }
+                        EventPayload::TasksCanceled { task_ids } | EventPayload::TasksAborted { task_ids } => {
+                            for t in task_ids {
+                                told.push((format!("end {t}"), *t));
+                            }
+                        }
+                        EventPayload::TaskStarted { task_id, instance_id, .. } => {
+                            told.push((format!("start {task_id} i{instance_id}"), *task_id))
+                        }
+                        _ => {}
+                    }
+                    for (what, t) in told {
+                        if !self.s.client_told.insert((*client, what.clone())) && self.on(Prop::C01) {
+                            let clause = if what.starts_with("end") {
+                                "outcome-sent-twice-to-one-client"
+                            } else {
+                                "start-sent-twice-to-one-client"
+                            };
+                            self.v(
+                                Prop::C01,
+                                clause,
+                                "client-event-stream",
+                                format!("client {client} was sent `{what}` of task {t} a second time on the same event stream"),
+                            );
+                        }
+                    }
+                }
                 Obs::Round(_) => {}
             }
+        }
+
+        for c in step_requests {
+            self.s.post_request.insert(c, crate::common::hash64(&(&post.core, &post.hq)));
         }
 
         // ---- C01: journal and live listeners see the same per-task sequence ----
@@ -983,6 +1046,43 @@ impl Monitor {
         }
     }
 
+    /// What the monitors learn from an accepted submit: the new tasks, their dependencies, the
+    /// job's limits. Returns the task ids the job must show afterwards.
+    fn register_submit(&mut self, job: u32, spec: &crate::sim::scenario::SubmitSpec) -> BTreeSet<u32> {
+        let known = self.s.known_tasks_per_job.entry(job).or_default().clone();
+        let rq: Vec<u32> = if let Some(ids) = &spec.array_ids {
+            if ids.is_empty() {
+                let start = known.iter().max().map(|m| m + 1).unwrap_or(0);
+                let n = spec.entries.unwrap_or(1);
+                (start..start + n).collect()
+            } else {
+                ids.clone()
+            }
+        } else {
+            spec.graph.iter().map(|t| t.id).collect()
+        };
+        let expected: BTreeSet<u32> = known.iter().copied().chain(rq.iter().copied()).collect();
+        for t in &rq {
+            let t = tid(job, *t);
+            let deps: Vec<TaskId> = spec
+                .graph
+                .iter()
+                .find(|g| g.id == t.job_task_id().as_num())
+                .map(|g| g.deps.iter().map(|d| tid(job, *d)).collect())
+                .unwrap_or_default();
+            for d in &deps {
+                if matches!(self.status(*d), TStatus::Failed | TStatus::Canceled | TStatus::Aborted) {
+                    self.s.dep_bad_at_submit.insert((t, *d));
+                }
+            }
+            self.s.deps.insert(t, deps);
+        }
+        self.s.known_tasks_per_job.entry(job).or_default().extend(rq);
+        self.s.crash_limit.insert(job, spec.crash_limit.clone());
+        self.s.max_fails.entry(job).or_insert(spec.max_fails);
+        expected
+    }
+
     fn on_response(
         &mut self,
         _sys: &System,
@@ -994,56 +1094,27 @@ impl Monitor {
     ) {
         match (req, resp) {
             (Req::Submit(spec), RespDigest::SubmitOk { job, task_ids }) => {
-                let known = self.s.known_tasks_per_job.entry(*job).or_default().clone();
-                // requested ids
-                let requested: Option<Vec<u32>> = if let Some(ids) = &spec.array_ids {
-                    if ids.is_empty() {
-                        let start = known.iter().max().map(|m| m + 1).unwrap_or(0);
-                        let n = spec.entries.unwrap_or(1);
-                        Some((start..start + n).collect())
-                    } else {
-                        Some(ids.clone())
-                    }
-                } else {
-                    Some(spec.graph.iter().map(|t| t.id).collect())
+                let expected = match self.s.submit_expected.remove(&client) {
+                    Some(e) => e,
+                    // no Submit event was seen when the request was handled
+                    None => self.register_submit(*job, spec),
                 };
                 let all: BTreeSet<u32> = task_ids.iter().copied().collect();
-                if let Some(rq) = requested {
-                    let expected: BTreeSet<u32> = known.iter().copied().chain(rq.iter().copied()).collect();
-                    if all != expected {
-                        self.v(
-                            Prop::C13,
-                            "submit-ids-differ",
-                            if spec.array_ids.as_ref().is_some_and(|i| i.is_empty()) { "auto-ids" } else { "explicit-ids" },
-                            format!("submit into job {job}: expected task ids {expected:?}, job now has {all:?}"),
-                        );
-                        let d = format!("submit into job {job}: job shows tasks {all:?}, submitted so far {expected:?}");
-                        self.v(Prop::C02, "phantom-or-orphan-task", "submit", d);
-                    }
-                    for t in &rq {
-                        let t = tid(*job, *t);
-                        let deps = spec
-                            .graph
-                            .iter()
-                            .find(|g| g.id == t.job_task_id().as_num())
-                            .map(|g| g.deps.iter().map(|d| tid(*job, *d)).collect())
-                            .unwrap_or_default();
-                        let deps: Vec<TaskId> = deps;
-                        for d in &deps {
-                            if matches!(self.status(*d), TStatus::Failed | TStatus::Canceled | TStatus::Aborted) {
-                                self.s.dep_bad_at_submit.insert((t, *d));
-                            }
-                        }
-                        self.s.deps.insert(t, deps);
-                    }
-                    self.s.known_tasks_per_job.entry(*job).or_default().extend(rq);
+                if all != expected {
+                    self.v(
+                        Prop::C13,
+                        "submit-ids-differ",
+                        if spec.array_ids.as_ref().is_some_and(|i| i.is_empty()) { "auto-ids" } else { "explicit-ids" },
+                        format!("submit into job {job}: expected task ids {expected:?}, job now has {all:?}"),
+                    );
+                    let d = format!("submit into job {job}: job shows tasks {all:?}, submitted so far {expected:?}");
+                    self.v(Prop::C02, "phantom-or-orphan-task", "submit", d);
                 }
-                self.s.crash_limit.insert(*job, spec.crash_limit.clone());
-                self.s.max_fails.entry(*job).or_insert(spec.max_fails);
             }
             (Req::Submit(_), RespDigest::SubmitRejected(why)) => {
                 let now = crate::common::hash64(&(&post.core, &post.hq));
-                if self.s.pre_request.get(&client).copied() != Some(now) {
+                let after = self.s.post_request.get(&client).copied().unwrap_or(now);
+                if self.s.pre_request.get(&client).copied() != Some(after) {
                     self.v(
                         Prop::C13,
                         "rejected-submit-changed-state",
@@ -2120,5 +2191,6 @@ pub fn req_kind(r: &Req) -> &'static str {
         Req::Flush => "flush",
         Req::WorkerList | Req::WorkerInfo(_) => "workers",
         Req::StopWorker(_) => "stop-worker",
+        Req::StreamAll => "stream-all",
     }
 }
